@@ -56,6 +56,10 @@ def judge(ctx, designs, evals, res, known, nontrivial, tag):
         diffs = oc.diff_tables(obs, ideal)
         if not diffs and ctx.cov["evaluations"] % 7 == 0:
             ctx.sample({"design": d["id"], "ops": len(obs["srvOps"]), "doc3": len(obs["doc3"]), "doc2": len(obs["doc2"]), "verdicts": obs["verdicts"]})
+        # one further deviation that accounts for the whole design (the usual case when a single defect is present)
+        whole = None
+        if diffs and oc.diff_tables(obs, predK):
+            whole = next((dv for dv in oc.DEVIATIONS if dv not in K and not oc.diff_tables(obs, oc.predicted_tables(evals[(d["id"], K | {dv})]))), None)
         for tb, k, f, o, p in diffs:
             item = (tb, k, f)
             keys = []
@@ -64,6 +68,8 @@ def judge(ctx, designs, evals, res, known, nontrivial, tag):
                 keys = [dv for dv in sorted(K) if oc.item_of(oc.predicted_tables(evals[(d["id"], K - {dv})]), item) != o]
                 if not keys:      # several recorded findings each suffice
                     keys = [dv for dv in sorted(K) if oc.item_of(oc.predicted_tables(evals[(d["id"], frozenset([dv]))]), item) == o][:1] or sorted(K)[:1]
+            elif whole:
+                keys = [whole]
             else:
                 for dv in oc.DEVIATIONS:
                     if dv not in K and oc.item_of(oc.predicted_tables(evals[(d["id"], K | {dv})]), item) == o:
